@@ -163,10 +163,12 @@ def write_shapefile(
         for i, polygon in enumerate(dataset.ems.polygons):
             if polygon is None:
                 continue
+            # Values are given in field order. dBASE field names are limited to ten
+            # characters, so 'linear_index' can not be addressed by keyword.
             writer.record(
-                name=f'polygon{i}',
-                linear_index=i,
-                index=json.dumps(dataset.ems.wind_index(i)),
+                f'polygon{i}',
+                i,
+                json.dumps(dataset.ems.wind_index(i)),
             )
             writer.shape(polygon.__geo_interface__)
 
